@@ -235,6 +235,7 @@ package PVM
 //@   ensures exits: result1 == ExitContinue || result1 == ExitPanic
 //@   loop rangeint.iter#0
 //@     invariant range: 0 <= rangeint_iter && rangeint_iter < len(instruction) && 0 <= prev && prev <= rangeint_iter && len(bitmask) == len(instruction)
+//@     invariant frame: frame_only()
 
 //@ func decodeUintFixedLength
 //@   props C03
